@@ -17,7 +17,7 @@ RULE = ('socket: one server process per case, client with 1-4 connections and 1-
         '(responses reorder across connections) and a failure flag; the handler answers (tag, type, length, sha256) or raises KeyError(tag); stream() '
         'order; adversarial id() reuse for request ids; delay injection in the client send/receive coroutines (targeted between write_record and the '
         'registration of the request). pipe: scripted bidirectional exchanges between two processes with objects across PIPE_BUF and 1 MB. '
-        'non-trivial = case with >=2 connections, >=2 requesters and a payload >= 64 KiB or a failing request; distinct = distinct (config, seed)')
+        'non-trivial = case with >=2 connections, >=2 requesters and a payload >= 64 KiB or a failing request; distinct = distinct (config, seed); ~8% abandoned requests (response_timeout 5-30 ms against 50-300 ms handlers) followed by more requests; handler latencies and idle gaps around the 0.1 s / 1 s polling intervals')
 ASSUMPTIONS = ['payload integrity is judged by (type name, byte length, sha256) computed independently on both sides',
                'a request unanswered after 60 s with stable stacks is a lost response']
 CASE_TIMEOUT = 240
